@@ -34,6 +34,14 @@ HANDMADE = [
     (">> title: A b c\n>> servings: 2\n= One =\nStep one @a{1}\n= Two =\nStep two @b b{2%g}(note one two)\n\nStep three #c{}", "canonical"),
     ("First line of step\nsecond line @x{} third\nfourth ~t{1%h} end\n\n\n\nNext step here.\n", "canonical"),
     ("@flour{1 1/2%cup} then @eggs{2} and @milk{1/2 % l}(whole milk only)\n\n@&flour{1%cup} again -- already\n", "extended"),
+    # components that wrap over a line end: names, aliases, notes, a unit, a text quantity (the line ends of the judged
+    # edits then lie INSIDE a component; C17_trailing_comment_events is about exactly these places too)
+    ("Mix @extra virgin\nolive oil{1%tbsp}(cold\npressed only) with @sea\nsalt flakes|fine\nsalt{} and #big\nheavy pot{} then "
+     "~long\nrest{5%min} and @flour{a\nfew%hand\nfuls}\n\nServe @&extra virgin\nolive oil{} now", "extended"),
+    ("Add @extra virgin\nolive oil{} to #frying\npan{} slowly\nthen @salt\nand @black\npepper{1%pinch}(freshly\nground)\n", "canonical"),
+    # inline quantities in step text (INLINE_QUANTITIES, bundled converter): value and unit as two words
+    ("Preheat the oven to 180 °C and line #a tin{}.\n\nBake the @dough{500%g} at 350 F for 25 minutes, then rest 10 min\nand cool to 4 °C "
+     "before serving 2 kg of it\n", "extended"),
 ]
 
 
@@ -98,7 +106,18 @@ def run(rep, tier, seed):
     tm_src = [t for t, _ in HANDMADE] + HANDMADE_TEXT_MODE
     tm = [(ed.text_mode_variant(t, rng), None, "extended", "textmode") for t in tm_src for _ in range(4 if quick else 20)]
     tm += [(ed.text_mode_variant(g[0], rng), None, "extended", "textmode") for g in gen[::4]]
-    for text, _exp, prof, info in hand + gen + tm:
+    # sources with components wrapped over a line end: every hand-made source and every third generated recipe that
+    # has a component with a name or note of several words
+    wrapped = []
+    for text, _exp, prof, _info in hand[::4 if quick else 20] + gen[::3]:
+        w = ed.wrapped_variant(text, ed.points(text, PROFILES[prof][0] != 0), rng)
+        if w is not None and w != text:
+            wrapped.append((w, None, prof, "wrapped"))
+    # sources with inline quantities in step text (`180 °C`, `20 minutes`): every hand-made source and every third
+    # generated recipe, one more step appended (read with INLINE_QUANTITIES and the bundled converter in the extended profile)
+    inline = [(ed.with_inline_quantities(text, rng), None, prof, "inline")
+              for text, _exp, prof, _info in hand[::4 if quick else 20] + gen[1::3]]
+    for text, _exp, prof, info in hand + gen + wrapped + inline + tm:
         textmode = info == "textmode"
         sfx = "/textmode" if textmode else ""
         ext, conv = PROFILES[prof]
@@ -195,16 +214,23 @@ def run(rep, tier, seed):
                   tier, "correspondence Model/Lexer.v, Model/Parser.v <-> src/lexer, src/parser on CRLF / commented texts")
     common.proof_coverage(rep, PID, audit, tier,
                           "lexer, pull parser and analysis pass (Model/Lexer.v, Model/Parser.v, Model/Analysis.v, "
-                          "Model/MetaMap.v): CRLF, extra lines and the block comment after a word are theorems about the "
-                          "recipe, its validity and the metadata map (C17_*_recipe) outside text mode; text mode, the "
-                          "trailing comment at document level and comments after a number are observed on the "
-                          "implementation only: the monitor compares complete parse results")
+                          "Model/MetaMap.v): CRLF, extra lines and the block comment after a word or number token are theorems about the "
+                          "recipe, its validity and the metadata map (C17_*_recipe) outside text mode; the trailing comment / "
+                          "trailing spaces at any line end, components included (C17_trailing_*_events(_fm): content up to blank "
+                          "space in step text, presence of an error; C17_trailing_*_recipe: the recipe up to blank space in step "
+                          "and paragraph text, validity, metadata map; hypotheses: no text mode, INLINE_QUANTITIES off or the "
+                          "find_inline_quantity oracle reads U+0020 runs alike); text mode and the blank-on-both-sides comment are "
+                          "observed on the implementation only: the monitor compares complete parse results")
     rep.coverage.update({
         "evaluations": len(pairs) + ncases, "distinct_nontrivial": len(nontrivial),
         "rule": "%d generated and %d hand-made well-formed recipes (canonical: no extensions/empty converter; extended: all "
-                "extensions/bundled converter) x {crlf, trail_comment, trail_space, trail_multi (line already ending in a block comment), "
+                "extensions/bundled converter) x {crlf, trail_comment, trail_space, trail_multi (line already ending in a block comment), unit_comment (between a number and the next word of step text), "
                 "mid_comment, mid_comment_double (two adjacent comments), mid_comment_spaced, name_comment_spaced, "
                 "qty_comment (between the number tokens of a quantity, after `{`), extra_lines} x %d tapes (one point / up to four / every legal point), plus trail_comment+crlf; "
+                "the same edits on %d derived sources with a component name / alias / note wrapped over a line end (a blank "
+                "between its words replaced by a newline: the line ends then lie inside a component); "
+                "and on %d derived sources with one more step holding inline quantities (`180 °C`, `20 minutes`; unit_comment puts a "
+                "block comment between such a number and the word after it); "
                 "the same edits (without qty_comment) on text-mode readings (`>> [mode]: text` / `>> [define]: text` on top of the Cooklang part, "
                 "all extensions) of every hand-made source, of %d sources with components that wrap, and of every fourth generated recipe "
                 "(per_edit names ending in /textmode: edit points inside the kept source of a component); "
@@ -212,7 +238,7 @@ def run(rep, tier, seed):
                 "length <= %d over the 16-symbol core alphabet and %s over a 12-symbol comment/metadata "
                 "alphabet), front-matter line arrangements (%d), one-token mutations of generated recipes (%d), "
                 "specials, each under both profiles; distinct_nontrivial = distinct (edited text, extensions) with "
-                "edited != source" % (ngen, len(HANDMADE), ntapes, len(HANDMADE_TEXT_MODE), n_ex, 4 if quick else 5, "all of length 5" if quick else "all of length 5 + 200000 sampled of length 6", n_fm, n_mut),
+                "edited != source" % (ngen, len(HANDMADE), ntapes, len(wrapped), len(inline), len(HANDMADE_TEXT_MODE), n_ex, 4 if quick else 5, "all of length 5" if quick else "all of length 5 + 200000 sampled of length 6", n_fm, n_mut),
         "samples": [dict(edit=k, **v) for k, v in samples.items()],
         "per_edit": per_edit,
         "edit_points_used": sum(v["edit_points"] for v in per_edit.values()),
@@ -232,6 +258,10 @@ def run(rep, tier, seed):
                                   "The same variant between the words of component names, aliases, notes, section names and "
                                   "metadata keys IS judged (edit name_comment_spaced): text_trimmed collapses the double blank",
             "probe_brace": "a comment after a word/number inside `{...}`: quantity positions, reported only",
+            "probe_trail_tab": "TAB / mixed blanks appended to a line: the statement says trailing SPACES; a trailing TAB at a line end "
+                               "inside a component that wraps stays in its name (text_trimmed collapses runs of U+0020 only; "
+                               "Properties/C17.v C17_trailing_tab_refuted), so the edit is reported, not judged; the judged "
+                               "trail_space appends U+0020 only (any blank space on the fence lines of a front matter)",
             "text_mode_qty": "text-mode sources: qty_comment may put a blank where there was none (`{ [-c-] 1}`); inside the "
                              "kept source of a component that is a blank-space difference the statement does not allow for",
         },
